@@ -50,46 +50,21 @@ Section Counters.
 
   Ltac fin := cbn [s_stats s_log s_jaclog r_stats r_log r_jaclog out_counted]; auto 30 with cnt.
 
-  (* A small symbolic executor for `out_counted (step s)`: walks the term from the top; numeric `let`s (numbers,
-     vectors, matrices, factorisations -- irrelevant to the counters) are abstracted into fresh variables so the
-     term stays small, every other `let` is inlined, case analyses are split on their innermost simple scrutinee. *)
-  Ltac simple_scrut c :=
-    lazymatch c with
-    | context [if _ then _ else _] => fail
-    | context [match _ with _ => _ end] => fail
-    | _ => idtac
-    end.
-  Ltac split_in c :=
-    match c with
-    | context [if ?d then _ else _] => simple_scrut d; destruct d
-    | context [match ?d with _ => _ end] => simple_scrut d; destruct d
-    end.
-  Ltac numeric T :=
-    lazymatch T with
-    | F => idtac
-    | list F => idtac
-    | nat -> nat -> F => idtac
-    | nat -> F => idtac
-    | lu1 => idtac
-    | lu2 => idtac
-    | _ => fail
-    end.
-  Ltac go :=
-    lazymatch goal with
-    | |- out_counted (let x := ?e in @?B x) =>
-        let T := type of e in
-        tryif numeric T
-        then (let v := fresh "v" in generalize e; intro v; change (out_counted (B v)); cbv beta)
-        else (change (out_counted (B e)); cbv beta)
-    | |- out_counted (if ?c then _ else _) => tryif simple_scrut c then destruct c else split_in c
-    | |- out_counted (match ?c with _ => _ end) => tryif simple_scrut c then destruct c else split_in c
-    end.
+  Ltac nxt := cbv beta iota; cbn [out_counted s_stats s_log s_jaclog r_stats r_log r_jaclog].
+  (* split on the scrutinee at the head of the term, innermost first *)
+  Ltac hd :=
+    match goal with
+    | |- out_counted (if ?c then _ else _) => destruct c
+    | |- out_counted (match (if ?c then _ else _) with _ => _ end) => destruct c
+    | |- out_counted (match (match ?c with _ => _ end) with _ => _ end) => destruct c
+    | |- out_counted (match ?c with _ => _ end) => destruct c
+    end; nxt.
 
   Lemma step_counted s :
     counted (s_stats H s) (s_log H s) (s_jaclog H s) -> out_counted (step s).
   Proof.
-    intros Hc. unfold Radau.step, halve.
-    repeat go; fin.
+    intros Hc. unfold Radau.step, halve, build_e2. cbv zeta. nxt.
+    repeat hd. all: fin.
   Qed.
 
   Theorem loop_counted fuel s r :
